@@ -1,3 +1,4 @@
+import Splipy.Lemmas.C10Cummax
 import Mathlib.Tactic.Ring
 import Mathlib.Tactic.Linarith
 import Mathlib.Data.List.Sort
@@ -207,7 +208,7 @@ theorem mk?_ok_of_sorted (p : ℕ) (l : List K) (tol : K) (h0 : 0 ≤ tol) (hp :
     have e2 : l.toArray.getD (i+1) 0 = l[i+1] := by simp [Array.getD, hi2]
     rw [e1, e2]; linarith
   simp only [h1, h2, h3, if_false]
-  simp
+  simp [Basis.cummax_of_pairwise l hs]
 
 /-! ## `BSplineBasis.raise_order` on a non-periodic basis -/
 
